@@ -34,6 +34,7 @@ import vlib
 ALPHABET = [97, 32, 10, 13, 233, 8364, 128512, 12, 8232]   # a, space, LF, CR, e-acute, euro, U+1F600, FF, U+2028
 THEOREMS = ["C10_line", "C10_line_inside_crlf", "C10_boundary_cases", "C10_roundtrip", "C10_clamp", "C10_column",
             "C10_line_exists", "C10_monotone", "C10_impl_correct", "C10_impl_folding_range", "C10_impl_wrappers", "C10_impl_every_offset",
+            "C10_model_is_source", "C10_source_correct",
             "C10_impl_new", "C10_impl_partitioned", "C10_impl_char_boundary"]
 TRUSTED = [
     "Coq 8.16.1 kernel (coqc; vm_compute not needed by these proofs); no axioms (Print Assumptions: closed under the global context)",
@@ -483,7 +484,8 @@ def extraction_check(exe, texts):
 def run(ctx):
     t0 = time.time()
     bindir = vlib.build_harness(False, bins=["linesdump"])
-    fails = vlib.proof_step(ctx, "TG.Props.C10", THEOREMS, ["props/C10.vo"], trusted_base=TRUSTED, translators=[])
+    fails = vlib.proof_step(ctx, "TG.Props.C10", THEOREMS, ["props/C10.vo"], trusted_base=TRUSTED,
+                            translators=["t_lineindex"])
     # the forbidden-declaration scan of vlib covers every .v of the shared project; only files in the dependency
     # cone of props/C10.v can affect these theorems (another group's unfinished file must not fail this property)
     if not ctx.quick and not fails:
@@ -582,6 +584,7 @@ def run(ctx):
     if corr_fail:
         fails.append({"kind": "correspondence", "file": "model-vs-implementation (lines_run impl vs linesdump)",
                       "count": len(corr_fail), "first": corr_fail[:3]})
+    ctx.cov["broken_ties"] = [{k: (v if isinstance(v, (int, str)) else json.dumps(v)[:400]) for k, v in f.items()} for f in fails[:12]]
     vlib.broken_ties_to_violations(ctx, fails, bool(oracle_fail))
 
     # ---- evidence
